@@ -212,4 +212,11 @@ def main(argv=None):
         build.ensure("plain")
         print("setup ok")
         return 0
-    return run_property(a.prop.upper(), a.tier, util.env_seed(), a.replay)
+    try:
+        return run_property(a.prop.upper(), a.tier, util.env_seed(), a.replay)
+    except Exception:
+        # a failure of the harness itself is never a verdict on the property
+        import traceback
+        traceback.print_exc()
+        print("INCONCLUSIVE property=%s reason=the harness raised an exception (see the traceback above)" % a.prop.upper())
+        return 2
